@@ -18,24 +18,32 @@ func treeOpts() sgen.Opts {
 
 // stripConstraints removes every value constraint (bounds, lengths, patterns, item counts, formats, enums, defaults)
 // and keeps types, properties, required, items, $defs and $ref.
-func stripConstraints(v any) any {
+func stripConstraints(v any) any { return stripConstraintsKeeping(v, false) }
+
+// stripConstraintsKeeping: as stripConstraints, but numeric bounds stay when keepBounds is set.
+func stripConstraintsKeeping(v any, keepBounds bool) any {
 	switch t := v.(type) {
 	case sgen.M:
 		out := sgen.M{}
 		for k, x := range t {
 			switch k {
-			case "minimum", "maximum", "exclusiveMinimum", "exclusiveMaximum", "multipleOf", "minLength", "maxLength", "pattern", "minItems", "maxItems", "format", "enum", "default":
+			case "minimum", "maximum", "exclusiveMinimum", "exclusiveMaximum":
+				if keepBounds {
+					out[k] = x
+				}
+				continue
+			case "multipleOf", "minLength", "maxLength", "pattern", "minItems", "maxItems", "format", "enum", "default":
 				continue
 			case "properties", "$defs", "definitions":
 				m := sgen.M{}
 				if xm, ok := x.(sgen.M); ok {
 					for pk, pv := range xm {
-						m[pk] = stripConstraints(pv)
+						m[pk] = stripConstraintsKeeping(pv, keepBounds)
 					}
 				}
 				out[k] = m
 			default:
-				out[k] = stripConstraints(x)
+				out[k] = stripConstraintsKeeping(x, keepBounds)
 			}
 		}
 		if _, typed := out["type"]; !typed {
@@ -49,7 +57,7 @@ func stripConstraints(v any) any {
 	case []any:
 		o := make([]any, len(t))
 		for i, x := range t {
-			o[i] = stripConstraints(x)
+			o[i] = stripConstraintsKeeping(x, keepBounds)
 		}
 		return o
 	}
@@ -414,7 +422,7 @@ func init() {
 	register("C02", func(c *engine.Ctx) {
 		c.Rule = "random structured schemas (tree fragment, plus formats) with schema-directed VALID documents (boundary values of every constraint, optional properties present or absent, null where allowed, nested objects and arrays), a third of the programs also generated with --min-sized-ints and bounds near the integer type limits; every document the reference calls valid must be accepted and every non-empty declared value must re-appear unchanged, at the same place, in json.Marshal of the decoded value. Near-duplicates: pairs of schema nodes whose Go type names collide (sibling properties, definitions, definition vs property, array items) and whose schemas differ in exactly one keyword (24 perturbations: format, type, each bound, required, enum members, items, default, nullable, annotation only, identical), both orders, documents valid for the one and for the other at both positions. The broad random stream (all features, mutated documents) additionally ties model and implementation. Distinct = distinct (stream, verdicts, document shape)."
 		c.Proofs([]string{"GJS.Props.C02", "GJS.Props.Whole", "GJS.Proofs.Mono", "GJS.Proofs.Stable"}, []string{
-			"GJS.Props.C02.certShape_accepts", "GJS.Props.C02.certified_exact_on_shape", "GJS.Props.C02.acc_map_iff",
+			"GJS.Props.C02.certShape_accepts", "GJS.Props.C02.certified_exact_on_shape", "GJS.Props.C02.certFull_accepts", "GJS.Props.C02.decodeStruct_field", "GJS.Props.C02.num_decode_passes", "GJS.Props.C02.acc_map_iff",
 			"GJS.Proofs.decode_err_mono", "GJS.Proofs.decode_stable",
 			"GJS.Props.C02.prim_roundtrip", "GJS.Props.C02.validators_only_reject_on_constraints", "GJS.Props.C02.unmarshal_accept_stable",
 			"GJS.Props.C02.rejected_forever_not_accepted", "GJS.Proofs.decode_ok_mono", "GJS.Proofs.okMono",
@@ -485,7 +493,7 @@ func init() {
 		// completeness theorem `certShape_accepts` — the evidence counts how many of them the driver certifies (`shape`)
 		for i := 0; i < c.N(80, 800); i++ {
 			g := sgen.New(c.R, sgen.Opts{Defs: i%2 == 0, MaxDepth: 3, NoFormatDefs: true, NoAliasDefs: true})
-			root := stripConstraints(g.Root("")).(sgen.M)
+			root := stripConstraintsKeeping(g.Root(""), i%3 != 0).(sgen.M) // two thirds keep their numeric bounds (certFull)
 			docs := []any{g.FullSample(root, 0)}
 			for k := 0; k < 8; k++ {
 				docs = append(docs, g.Sample(root, 0))
@@ -617,6 +625,7 @@ func init() {
 			}
 		}
 		certCount(c, res, "shape")
+		certCount(c, res, "full")
 		breaks(c, res, nil, fails > 0)
 		knownProgramFindings(c)
 	})
